@@ -18,6 +18,9 @@
 use echo_verif_harness::*;
 use std::collections::{BTreeMap, BTreeSet};
 use warp_core::{
+    OpticAdmissionTicket, OpticArtifactHandle, ProvenanceStore, ReceiptCorrelationPersistenceRecord,
+    TicketedRuntimeIngressAuthority, TicketedRuntimeIngressDisposition, IntentSubmissionDisposition,
+    OPTIC_ADMISSION_TICKET_KIND, OPTIC_ARTIFACT_HANDLE_KIND, ProvenanceEntry,
     make_node_id, make_type_id, AtomPayload, AttachmentKey, AttachmentValue, CausalTickReceiptRef,
     ConflictPolicy, Engine, EngineBuilder, Footprint, GlobalTick, GraphStore, GraphView,
     HeadEligibility, HeadId, HeadInbox, InboxAddress, InboxPolicy, IngressCausalParent,
@@ -155,6 +158,7 @@ struct Case {
     ops: Vec<Op>,
     perms: String,
     seed: u64,
+    ticketed: bool,
 }
 
 fn parse_case(line: &str) -> Case {
@@ -215,6 +219,7 @@ fn parse_case(line: &str) -> Case {
         ops,
         perms: g("perms"),
         seed: m.get("seed").and_then(|s| s.parse().ok()).unwrap_or(1),
+        ticketed: m.get("tk").map(|s| s == "1").unwrap_or(true),
     }
 }
 
@@ -618,6 +623,234 @@ fn run_ib(c: &Case, ops: &[Op], intents: &[IntentSpec]) -> RunOut {
     o
 }
 
+
+// ----------------------------------------------------------------------------- restart (restore_* APIs, no WAL)
+
+fn ticket_for(submission_id: &[u8; 32]) -> OpticAdmissionTicket {
+    let mut h = blake3::Hasher::new();
+    h.update(b"verif.c08.ticket");
+    h.update(submission_id);
+    let d: [u8; 32] = h.finalize().into();
+    OpticAdmissionTicket {
+        kind: OPTIC_ADMISSION_TICKET_KIND.to_owned(),
+        artifact_handle: OpticArtifactHandle { kind: OPTIC_ARTIFACT_HANDLE_KIND.to_owned(), id: format!("c08-{}", hex::encode(&d[..4])) },
+        artifact_hash: "artifact".into(),
+        operation_id: "operation".into(),
+        requirements_digest: "requirements".into(),
+        canonical_variables_digest: d[..4].to_vec(),
+        basis_request_digest: d,
+        aperture_request_digest: d,
+        budget_request_digest: d,
+        law_witness_digest: d,
+        ticket_digest: d,
+    }
+}
+
+struct Live {
+    rt: WorldlineRuntime,
+    live: Vec<WriterHeadKey>,
+    reg: String,
+}
+
+fn build_runtime(c: &Case) -> Live {
+    let mut rt = WorldlineRuntime::new();
+    for w in &c.worlds {
+        rt.register_worldline(*w, WorldlineState::empty()).expect("register worldline");
+    }
+    let mut live = Vec::new();
+    let mut reg = String::new();
+    for h in &c.heads {
+        let r = rt.register_writer_head(WriterHead::with_routing(
+            h.key,
+            PlaybackMode::Play,
+            h.pol.real(),
+            h.name.clone().map(InboxAddress),
+            h.default,
+        ));
+        if r.is_ok() {
+            live.push(h.key);
+            reg.push('o');
+        } else {
+            reg.push('x');
+        }
+    }
+    live.sort();
+    Live { rt, live, reg }
+}
+
+/// one submission through the ticketed path (submit_intent + ingest_ticketed_invocation) or plain ingest
+fn submit_one(rt: &mut WorldlineRuntime, env: &IngressEnvelope, ticketed: bool) -> String {
+    if !ticketed {
+        return match rt.ingest(env.clone()) {
+            Ok(IngressDisposition::Accepted { .. }) => "A".into(),
+            Ok(IngressDisposition::Duplicate { .. }) => "D".into(),
+            Err(RuntimeError::RejectedByPolicy(_)) => "R".into(),
+            Err(_) => "E".into(),
+        };
+    }
+    let (sid, first) = match rt.submit_intent(env.clone()) {
+        Ok(IntentSubmissionDisposition::Accepted { submission_id, .. }) => (submission_id, "A"),
+        Ok(IntentSubmissionDisposition::Duplicate { submission_id, .. }) => (submission_id, "D"),
+        Err(RuntimeError::RejectedByPolicy(_)) => return "R".into(),
+        Err(_) => return "E".into(),
+    };
+    let auth = TicketedRuntimeIngressAuthority::assume_runtime_owner();
+    let second = match rt.ingest_ticketed_invocation(&auth, sid, &ticket_for(&sid), env.clone()) {
+        Ok(TicketedRuntimeIngressDisposition::Staged { .. }) => "s",
+        Ok(TicketedRuntimeIngressDisposition::Duplicate { .. }) => "d",
+        Err(RuntimeError::TicketedIngressDuplicateRuntimeIngress { .. }) => "c",
+        Err(_) => "e",
+    };
+    format!("{first}{second}")
+}
+
+/// runs a pass and returns what left the pending maps, per head
+fn pass_commits(
+    rt: &mut WorldlineRuntime,
+    prov: &mut ProvenanceService,
+    eng: &mut Engine,
+    live: &[WriterHeadKey],
+    flags: &mut Vec<String>,
+) -> Vec<(WriterHeadKey, [u8; 32])> {
+    let mut before: BTreeMap<WriterHeadKey, BTreeSet<[u8; 32]>> = BTreeMap::new();
+    for k in live {
+        before.insert(*k, pending_of(rt.heads().get(k).unwrap().inbox()).iter().map(|e| e.ingress_id()).collect());
+    }
+    if let Err(e) = SchedulerCoordinator::super_tick(rt, prov, eng) {
+        flags.push(format!("super-tick-error:{}", format!("{e:?}").chars().take(30).collect::<String>().replace(' ', "_")));
+        return vec![];
+    }
+    let mut out = Vec::new();
+    for k in live {
+        let after: BTreeSet<[u8; 32]> = pending_of(rt.heads().get(k).unwrap().inbox()).iter().map(|e| e.ingress_id()).collect();
+        for id in before[k].difference(&after) {
+            out.push((*k, *id));
+        }
+    }
+    out
+}
+
+fn run_restart(c: &Case, ops: &[Op], intents: &[IntentSpec], ticketed: bool) -> RunOut {
+    let mut o = RunOut::default();
+    let tag = if ticketed { "" } else { "-unticketed" };
+    let Live { mut rt, live, reg } = build_runtime(c);
+    o.reg = reg;
+    let mut eng = engine();
+    let mut prov = ProvenanceService::new();
+    for (w, f) in rt.worldlines().iter() {
+        prov.register_worldline(*w, f.state()).expect("provenance register");
+    }
+    let envs: Vec<IngressEnvelope> = intents.iter().map(IntentSpec::envelope).collect();
+    o.ids = envs.iter().map(|e| sh(&e.ingress_id())).collect();
+    let mut committed: BTreeSet<(WriterHeadKey, [u8; 32])> = BTreeSet::new();
+    for op in ops {
+        match op {
+            Op::Submit(i) => o.outs.push(submit_one(&mut rt, &envs[*i], ticketed)),
+            Op::Pass => {
+                let cs = pass_commits(&mut rt, &mut prov, &mut eng, &live, &mut o.flags);
+                o.outs.push(format!("P{}", cs.len()));
+                for x in cs {
+                    o.commits += 1;
+                    if !committed.insert(x) {
+                        o.flags.push("committed-twice".into());
+                    }
+                }
+            }
+            Op::Elig(h, b) => {
+                let _ = rt.set_head_eligibility(c.heads[*h].key, if *b { HeadEligibility::Admitted } else { HeadEligibility::Dormant });
+                o.outs.push("U".into());
+            }
+            Op::SetPol(..) => o.outs.push("U".into()),
+        }
+    }
+    // ---- "crash": keep only what the restore APIs take
+    let snapshot = rt.witnessed_submission_persistence_snapshot();
+    let snapshot = match snapshot {
+        Ok(s) => s,
+        Err(e) => {
+            o.flags.push(format!("restart:snapshot-failed:{}", format!("{e:?}").chars().take(30).collect::<String>().replace(' ', "_")));
+            return o;
+        }
+    };
+    let mut entries: Vec<ProvenanceEntry> = Vec::new();
+    for w in &c.worlds {
+        let n = prov.len(*w).unwrap_or(0);
+        for t in 0..n {
+            entries.push(prov.entry(*w, WorldlineTick::from_raw(t)).expect("entry"));
+        }
+    }
+    let correlations: Vec<ReceiptCorrelationPersistenceRecord> =
+        rt.receipt_correlations().map(ReceiptCorrelationPersistenceRecord::from).collect();
+    let Live { rt: mut rb, .. } = build_runtime(c);
+    if let Err(e) = rb.restore_witnessed_submission_persistence(snapshot) {
+        o.flags.push(format!("restart:restore-submissions-failed:{}", format!("{e:?}").chars().take(30).collect::<String>().replace(' ', "_")));
+        return o;
+    }
+    if let Err(e) = rb.restore_causal_runtime_history(&prov, &entries, &correlations) {
+        o.flags.push(format!("restart:restore-history-failed:{}", format!("{e:?}").chars().take(30).collect::<String>().replace(' ', "_")));
+        return o;
+    }
+    // restored frontier equals the pre-crash frontier
+    for w in &c.worlds {
+        let a = rt.worldlines().get(w).unwrap();
+        let b = rb.worldlines().get(w).unwrap();
+        if a.state().state_root() != b.state().state_root() || a.frontier_tick() != b.frontier_tick() {
+            o.flags.push("restart:frontier-differs".into());
+        }
+    }
+    // a retry of anything committed before the restart must be a Duplicate ...
+    let mut by_id: BTreeMap<[u8; 32], &IntentSpec> = BTreeMap::new();
+    for (i, e) in envs.iter().enumerate() {
+        by_id.entry(e.ingress_id()).or_insert(&intents[i]);
+    }
+    for (k, id) in &committed {
+        let spec = by_id[id];
+        let env = IngressEnvelope::local_intent_with_causal_parents(
+            IngressTarget::ExactHead { key: *k },
+            IntentKind::from_hash(spec.kind),
+            spec.bytes.clone(),
+            spec.parents.clone(),
+        );
+        match rb.clone().ingest(env.clone()) {
+            Ok(IngressDisposition::Duplicate { .. }) => {}
+            Ok(IngressDisposition::Accepted { .. }) => o.flags.push(format!("restart:retry-after-restart-accepted{tag}")),
+            Err(_) => {}
+        }
+        match rb.clone().submit_intent(env) {
+            Ok(IntentSubmissionDisposition::Duplicate { .. }) => {}
+            Ok(IntentSubmissionDisposition::Accepted { .. }) => o.flags.push(format!("restart:resubmission-after-restart-accepted{tag}")),
+            Err(_) => {}
+        }
+    }
+    // ... and re-driving every submission and two passes must not commit any of them again
+    let mut provb = prov.clone();
+    let mut engb = engine();
+    for op in ops {
+        if let Op::Submit(i) = op {
+            o.outs.push(format!("r{}", submit_one(&mut rb, &envs[*i], ticketed)));
+        }
+    }
+    for _ in 0..2 {
+        for x in pass_commits(&mut rb, &mut provb, &mut engb, &live, &mut o.flags) {
+            o.commits += 1;
+            if !committed.insert(x) {
+                o.flags.push(format!("restart:committed-again-after-restart{tag}"));
+            }
+        }
+    }
+    o.pend = "-".into();
+    o.pend_ids = "-".into();
+    o.comm = committed
+        .iter()
+        .map(|(k, id)| format!("{}={}", head_str(k), sh(id)))
+        .collect::<Vec<_>>()
+        .join(";");
+    if o.comm.is_empty() {
+        o.comm = "-".into();
+    }
+    o
+}
+
 // ----------------------------------------------------------------------------- variants (oracle)
 
 /// windows = maximal runs of submissions; returns index ranges into `ops`
@@ -728,6 +961,8 @@ fn main() {
         let run = |ops: &[Op], intents: &[IntentSpec]| -> RunOut {
             if c.mode == "ib" {
                 run_ib(&c, ops, intents)
+            } else if c.mode == "restart" {
+                run_restart(&c, ops, intents, c.ticketed)
             } else {
                 run_rt(&c, ops, intents)
             }
@@ -782,7 +1017,7 @@ fn main() {
             cmp(&r, "retry", &mut oracle, &mut dummy);
         }
         // 3. equivalent target spellings (the ingress id does not cover the target)
-        if c.mode != "ib" && c.perms != "0" {
+        if c.mode == "rt" && c.perms != "0" {
             for _ in 0..4 {
                 let respelled: Vec<IntentSpec> = c
                     .intents
